@@ -72,6 +72,9 @@ EXTRA = {
     'permute_rev': (['any'], lambda E, o, s: E.tt.permute(o[0], list(reversed(range(len(o[0].N)))))),
     'qtt_to_tens_all': (['tt'], lambda E, o, s: o[0].qtt_to_tens([_prod(o[0].N)])),
     'ctor_dense': (['tt'], lambda E, o, s: E.tt.TT(E.stensor('dense', list(o[0].N)), eps=1e-3)),
+    'ctor_cores_mixed_34': (['tt'], lambda E, o, s: E.tt.TT([E.stensor('k0', [1, o[0].N[0], E.dim('q', 1, s['B'])]), E.stensor('k1', [E.dim('q', 1, s['B']), E.dim('u', 1, s['B']), E.dim('v', 1, s['B']), 1])])),
+    'ctor_cores_mixed_43': (['tt'], lambda E, o, s: E.tt.TT([E.stensor('k0', [1, o[0].N[0], E.dim('v', 1, s['B']), E.dim('q', 1, s['B'])]), E.stensor('k1', [E.dim('q', 1, s['B']), E.dim('u', 1, s['B']), 1])])),
+    'ctor_cores_mixed_343': (['tt'], lambda E, o, s: E.tt.TT([E.stensor('k0', [1, o[0].N[0], 2]), E.stensor('k1', [2, 2, 2, 2]), E.stensor('k2', [2, 3, 1])])),
     'ctor_dense_reshaped': (['tt'], lambda E, o, s: E.tt.TT(E.stensor('dense', [_prod(o[0].N)]), list(o[0].N), eps=1e-3)),
     'ctor_numpy': (['tt'], lambda E, o, s: E.tt.TT(E.stensor('dense', list(o[0].N)).numpy(), eps=1e-3)),
     'ctor_numpy_reshaped': (['tt'], lambda E, o, s: E.tt.TT(E.stensor('dense', [_prod(o[0].N)]).numpy(), list(o[0].N), eps=1e-3)),
